@@ -48,6 +48,7 @@ def check(ctx, report):
     report.rule('C13.R1', 'observers do not write to self, to class level state or to their arguments')
     report.rule('C13.R2', 'no attr.ib default shares a mutable object between instances')
     report.rule('C13.R3', 'the parsed object does not alias the input buffer')
+    vector_constructor(ctx, report)
     # ---- R1
     for c in model.repo_classes():
         if c.is_subclass_of('builtins.Exception'):
@@ -206,3 +207,41 @@ def aliases_input(v, depth=0):
     if isinstance(v, Sym) and v.op in ('phi', 'ifexp') and depth < 5:
         return any(aliases_input(a, depth + 1) for a in v.args)
     return False
+
+
+def vector_constructor(ctx, report):
+    """premise of R2 (a vector default passed through its class as converter is a fresh object per instance): on every
+    path to a normal exit of ArrayBase.__attrs_post_init__ the item container stored last in ``self._items`` is a list
+    created in that call -- never the argument itself or the container of another vector"""
+    from ..paths import TooManyPaths, paths
+    c = ctx.model.cls('ArrayBase')
+    f = c.methods.get('__attrs_post_init__')
+    report.count('C13.R2')
+    if f is None:
+        report.error('C13.R2: ArrayBase.__attrs_post_init__ vanished')
+        return
+    report.touch(f)
+
+    def fresh(e):
+        if isinstance(e, (ast.List, ast.ListComp)):
+            return True
+        return isinstance(e, ast.Call) and isinstance(e.func, ast.Name) and e.func.id in ('list', 'sorted')
+    try:
+        ps = paths(f.node.body)
+    except TooManyPaths:
+        report.add('C13.R2', f.construct + '@paths', 'too many paths to decide which container a new vector keeps')
+        return
+    for stmts, how in ps:
+        if how == 'raise':
+            continue
+        last = None
+        for st in stmts:
+            if isinstance(st, ast.Assign) and any(ast.unparse(t) == 'self._items' for t in st.targets):
+                last = st.value
+        report.count('C13.R2')
+        if last is None or not fresh(last):
+            what = 'keeps the container it was given' if last is None else 'stores %s' % ast.unparse(last)
+            report.add('C13.R2', f.construct + '@items-container',
+                       'a path through the vector constructor %s instead of a list created in the call: two vectors (a default and '
+                       'every message built from it) then share one item list' % what)
+            break
